@@ -97,12 +97,19 @@ type UseOut struct {
 	OnNPContNPChild int  `json:"onNPContNPChild"`
 }
 
+// UV of PathEvalGen.tla: <<error, compilerError, configdError, badFields, invalidPath, onNPCont, onNPContNPChild>>
+type UV [7]int
+
+func (u UV) Out() UseOut {
+	return UseOut{Error: u[0] == 1, CompilerError: u[1], ConfigdError: u[2], BadFields: u[3], InvalidPath: u[4], OnNPCont: u[5], OnNPContNPChild: u[6]}
+}
+
 type Use struct {
-	H      string `json:"h"`
-	Stmt   string `json:"stmt"`
-	Intent UseOut `json:"intent"`
-	Fork   UseOut `json:"fork"`
-	F3     UseOut `json:"f3"`
+	H    string `json:"h"`
+	Stmt string `json:"stmt"`
+	I    UV     `json:"i"` // the meaning
+	F    UV     `json:"f"` // the fork: F2 and F3
+	G    UV     `json:"g"` // F3 alone
 }
 
 type Vector struct {
@@ -516,19 +523,20 @@ func replay(args []string) {
 						}
 						got, detail := useOf(h, u.Stmt, text)
 						nuse++
+						intent, fork, f3 := u.I.Out(), u.F.Out(), u.G.Out()
 						if strings.HasPrefix(detail, "panic") {
-							add("use", "panic", "", u.Intent, detail)
-						} else if got != u.Intent {
+							add("use", "panic", "", intent, detail)
+						} else if got != intent {
 							as := ""
-							if got == u.Fork {
+							if got == fork {
 								as = "F3"
-								if u.Fork.Error || u.Fork.CompilerError > 0 {
+								if fork.Error || fork.CompilerError > 0 {
 									as = "F2"
 								}
-							} else if got == u.F3 {
+							} else if got == f3 {
 								as = "F3"
 							}
-							add("use", u.Stmt+"@"+h, as, u.Intent, map[string]interface{}{"out": got, "detail": detail})
+							add("use", u.Stmt+"@"+h, as, intent, map[string]interface{}{"out": got, "detail": detail})
 						}
 					}
 				}
